@@ -38,7 +38,7 @@ CLAIMED = {
              'suspended between assignment and put) and comparing outcomes and final store with the model evaluated in Coq.',
         note='Trusted: Coq kernel, translator (maps/tuples/bounds), harness (fake transport, hook), asyncio cooperative scheduling (atomic between awaits). '
              'Expiry is an arbitrary environment deletion here; its timing is C14. Whole sessions with connection loss while requests are outstanding are checked by '
-             'an oracle on the numbers written on all connections (uniqueness among outstanding requests across reconnects is not a theorem). The bind response is '
+             'an oracle on the numbers written on all connections; that nothing rewinds the generators is read off esme.py by the translator (C13_generators_only_advanced). The bind response is '
              'taken positionally by connect(), outside the correlator. No axioms.',
         technique='Coq invariant proofs by induction over event histories (occurrence-count invariant, ghost ids) + modular arithmetic; trace correspondence against the real ESME',
         design='6 (C13)'),
@@ -92,7 +92,7 @@ CLAIMED = {
              'tie are skipped and counted); strictly increasing clock readings assumed (equal readings raise ZeroDivisionError in the code). The sender-level '
              'statement is checked on whole sessions (real limiter + real throttle handler on a virtual-time loop: wire-level rate bound, denial condition evaluated '
              'at every submit_sm write) and on traces of the real sender, not proved. Proved for the code after fixes b4cec97, dd102c0, a0e77b7 (throttle handler '
-             'asked before the wait in the rate limiter). No axioms.',
+             'asked before the wait in the rate limiter). Stated limit: a throttled response handled while the application\'s sending hook is suspended (between allow_request and the write) is not taken into account. No axioms.',
         technique='Coq proof: potential/supply argument by induction over clock readings (Q, lra/nra), liveness by state-invariance of failed readings; scripted-clock correspondence',
         design='6 (C18)'),
     'C14': dict(
